@@ -2,10 +2,10 @@ package main
 
 import (
 	"bufio"
-	"sort"
 	"encoding/json"
 	"fmt"
 	"os"
+	"sort"
 	"strings"
 )
 
